@@ -3,7 +3,6 @@ package c19
 import (
 	"fmt"
 	"sync/atomic"
-	"time"
 
 	"verif/internal/ev"
 )
@@ -99,11 +98,10 @@ func bigMaps(c *ev.Ctx) {
 					ch <- out{d}
 				}()
 				var d string
-				select {
-				case o := <-ch:
+				if o, ok := waitProgress(ch, &progress); ok {
 					d = o.d
-				case <-time.After(blockedAfter):
-					d = fmt.Sprintf("a call never returns: blocked for %s (a lock taken by an earlier call was not released)", blockedAfter)
+				} else {
+					d = fmt.Sprintf("a call never returns: no operation finished for %s (a lock taken by an earlier call was not released)", blockedAfter)
 				}
 				c.Add("big_map_steps", int64(len(ops)))
 				c.Eval(true)
